@@ -137,8 +137,10 @@ def sc_env_construct_reset(M, n, computer, gap, budget=None, initial=None):
     v_old = gen.calls[-1]
     k = put_env_state(M, env, n, v_old, init_ids)
     ncalls = len(gen.calls)
+    g0 = env.incomplete_game
     st, info = env.reset()
     M.check("reset.draws_one_new_game", len(gen.calls) == ncalls + 1)
+    M.check("reset.keeps_the_incomplete_game_object", env.incomplete_game is g0)
     v = gen.calls[-1]
     k0 = {c: (c in init_ids) for c in range(1 << n)}
     M.check("reset.info_is_full_game", info.get("game") is env.full_game and set(info) == {"game"})
@@ -175,8 +177,10 @@ def sc_env_step(M, n, computer, gap, action, budget=None):
     expl = [c.id for c in env.explorable_coalitions]
     c_a = expl[action]
     M.assume(M.not_(k[c_a]))                       # requires: the action is valid
+    g0, full0 = env.incomplete_game, env.full_game
     res = env.step(action)
     M.check("step.returns_5_tuple", len(res) == 5)
+    M.check("step.keeps_game_objects", env.incomplete_game is g0 and env.full_game is full0)
     st, rew, done, trunc, info = res
     k2 = dict(k)
     k2[c_a] = True
